@@ -39,7 +39,11 @@ def geometry_case(w, h, part, sub=None):
     iw, ih = w, h
     if sub is not None:
         ix, iy, iw, ih = sub
+        parent_before = [tuple(r[0]) + tuple(r[1:]) for r in t.generate_populated_positions()]
+        parent = t
         t = t.compute_for_subimage(ix, iy, iw, ih)
+        if [tuple(r[0]) + tuple(r[1:]) for r in parent.generate_populated_positions()] != parent_before or parent.count_populated_positions() != len(parent_before):
+            bad("sub-tiling-mutates-parent", "computing a sub-image tiling changed the parent tiling")
         gx0, gy0 = gx0 + ix, gy0 + iy
         if t.n_deepest_layer_tiles() != 4 ** rt.levels(w, h):
             bad("sub-levels", "sub-tiling has %d deepest-level tiles" % t.n_deepest_layer_tiles())
